@@ -97,7 +97,7 @@ def dcCur (factor stop : α) : Nat → α → α
   | f + 1, c => if c < stop then (if bump factor c == c then c else dcCur factor stop f (bump factor c)) else c
 
 theorem dloop_spec (rnd : Nat → α) (stop factor : α) (fuel : Nat) (k : Nat) (cur : α) (s : GSt) :
-    backoff_iter.loop1 rnd stop factor fuel (.int k) cur s =
+    backoff_iter.loop1 rnd factor stop fuel (.int k) cur s =
       (match defaultCount factor stop fuel cur k with
        | .count m => .cont [] (.int m, dcCur factor stop fuel cur) s
        | .noProgress => .stop [] (.raised .ValueError)
@@ -174,9 +174,9 @@ omit [LE α] [LT α] [DecidableLE α] [DecidableLT α] [BEq α] [Mul α] [Sub α
 set_option maxHeartbeats 1000000 in
 theorem mloop_spec (rnd : Nat → α) (stop factor jitter : α) (lim : Option Nat) (fuel : Nat) :
     ∀ (L i : Nat) (cr : Option α) (cur : α) (dr : Nat), L + 1 ≤ fuel → ((jitter == 0) = true ∨ dr = i) →
-      (backoff_iter.loop2 rnd stop (limArg lim) factor jitter fuel cr i cur ⟨L + 1, dr⟩).out
+      (backoff_iter.loop2 rnd (limArg lim) factor jitter stop fuel cur cr i ⟨L + 1, dr⟩).out
           = valsFrom factor stop jitter rnd (min (rem lim i L) (L + 1)) i cur ∧
-      (backoff_iter.loop2 rnd stop (limArg lim) factor jitter fuel cr i cur ⟨L + 1, dr⟩).how
+      (backoff_iter.loop2 rnd (limArg lim) factor jitter stop fuel cur cr i ⟨L + 1, dr⟩).how
           = if rem lim i L ≤ L then none else some .suspended := by
   induction fuel with
   | zero => intro L i cr cur dr h; omega
@@ -277,9 +277,9 @@ theorem res_of_out_how {β : Type} (r : Res α β) (o : List α) (w : Option Sto
 /-- the main loop as an equation: `L + 1` values are asked for at position 0 -/
 theorem mloop_res (rnd : Nat → α) (stop factor jitter : α) (lim : Option Nat) (fuel L : Nat) (cr : Option α) (cur : α)
     (hf : L + 1 ≤ fuel) :
-    (rem lim 0 L ≤ L → ∃ v s1, backoff_iter.loop2 rnd stop (limArg lim) factor jitter fuel cr 0 cur ⟨L + 1, 0⟩
+    (rem lim 0 L ≤ L → ∃ v s1, backoff_iter.loop2 rnd (limArg lim) factor jitter stop fuel cur cr 0 ⟨L + 1, 0⟩
         = .cont (valsFrom factor stop jitter rnd (rem lim 0 L) 0 cur) v s1) ∧
-    (¬ rem lim 0 L ≤ L → backoff_iter.loop2 rnd stop (limArg lim) factor jitter fuel cr 0 cur ⟨L + 1, 0⟩
+    (¬ rem lim 0 L ≤ L → backoff_iter.loop2 rnd (limArg lim) factor jitter stop fuel cur cr 0 ⟨L + 1, 0⟩
         = .stop (valsFrom factor stop jitter rnd (L + 1) 0 cur) .suspended) := by
   have hm := mloop_spec rnd stop factor jitter lim fuel L 0 cr cur 0 hf (Or.inr rfl)
   simp only [Int.natCast_zero] at hm
@@ -344,9 +344,9 @@ theorem src_backoff_iter_eq_model (fuel n : Nat) (r : Nat → α) (p : Params α
     simp only [Int.cast_ofNat_Int, Int.natCast_one] at hd
     have hm := fun lim => mloop_res r stop factor jitter lim fuel L none start h
     have fin_case : ∀ m : Nat, (m ≤ L → ∃ v s1,
-          backoff_iter.loop2 r stop (CountV.int ↑m) factor jitter fuel none 0 start ⟨L + 1, 0⟩ =
+          backoff_iter.loop2 r (CountV.int ↑m) factor jitter stop fuel start none 0 ⟨L + 1, 0⟩ =
             Res.cont (valsFrom factor stop jitter r (min m (L + 1)) 0 start) v s1) ∧
-        (¬ m ≤ L → backoff_iter.loop2 r stop (CountV.int ↑m) factor jitter fuel none 0 start ⟨L + 1, 0⟩ =
+        (¬ m ≤ L → backoff_iter.loop2 r (CountV.int ↑m) factor jitter stop fuel start none 0 ⟨L + 1, 0⟩ =
             Res.stop (valsFrom factor stop jitter r (min m (L + 1)) 0 start) Stop.suspended) := by
       intro m
       have hmm := hm (some m)
